@@ -29,17 +29,20 @@ type c11Sys struct {
 
 func c11Fill(seed uint32) *c11Sys {
 	s := &emulator.System{}
-	if err := s.CreateEmulator(); err != nil {
-		panic(err)
-	}
+	// the image is loaded first (its header bytes at $7FC0.. look like a small LoROM cartridge's), then the console is built:
+	// the memory map does not depend on what the arrays hold
 	for i := range s.ROM {
 		s.ROM[i] = rig.Mix(seed^0x524F4D, uint32(i))
 	}
+	s.ROM[0x7FD5], s.ROM[0x7FD6], s.ROM[0x7FD7], s.ROM[0x7FD8] = 0x20, 0x02, 0x08+byte(seed&1), 0x03
 	for i := range s.WRAM {
 		s.WRAM[i] = rig.Mix(seed^0x5752414D, uint32(i))
 	}
 	for i := range s.SRAM {
 		s.SRAM[i] = rig.Mix(seed^0x5352414D, uint32(i))
+	}
+	if err := s.CreateEmulator(); err != nil {
+		panic(err)
 	}
 	return &c11Sys{s: s, seed: seed, rom: append([]byte(nil), s.ROM[:]...), wram: append([]byte(nil), s.WRAM[:]...), sram: append([]byte(nil), s.SRAM[:]...)}
 }
